@@ -207,6 +207,8 @@ func (v *cxRecv) call(op cxHOp, buf []byte, idx int) (err error, supported, pani
 	return
 }
 
+const mxU64 = ^uint64(0)
+
 const cxGuardLen = 8
 
 // cxGuarded copies in into a fresh array followed by guard bytes; the returned slice's capacity
@@ -1096,6 +1098,206 @@ func propC17(c *Ctx) {
 		}
 		c.NT(int64(len(l)))
 	}
+	// 4. the same promises above the default limits
+	cxLargeInputs(c)
+}
+
+// cxLargeInputs: everything above ran under the globals the packages ship with, where no accepted input is longer
+// than the default MaxInputLength. Here the limit is switched off or raised and ACCEPTED inputs of several KiB up to
+// about 100 KiB go through every []byte-taking entry point on guarded copies: the input is not modified, the value is
+// the independently expected one, it does not change when the caller overwrites the buffer afterwards, string and
+// []byte agree, and a failing call (over a re-imposed limit, or a malformed long text) on a receiver that holds such
+// a value leaves it alone.
+func cxLargeInputs(c *Ctx) {
+	defer cxSetDefaults()()
+	type semCase struct {
+		text string
+		want sem.Ver
+	}
+	var sems []semCase
+	for _, n := range []int{1100, 4097, 70000} {
+		pre := strings.Repeat("a", n)
+		ids := strings.Repeat("rc-1.", n/5) + "0"
+		bld := strings.Repeat("b7.", n/3) + "x"
+		sems = append(sems,
+			semCase{"1.2.3-" + pre, sem.Ver{Major: 1, Minor: 2, Patch: 3, PreRelease: pre}},
+			semCase{"v10.0.18446744073709551615+" + bld, sem.Ver{Major: 10, Patch: mxU64, Build: bld}},
+			semCase{"0.0.1-" + ids + "+" + pre, sem.Ver{Patch: 1, PreRelease: ids, Build: pre}})
+	}
+	sems = append(sems, semCase{"1.2.3-" + strings.Repeat("z9-", 34000) + "0", sem.Ver{Major: 1, Minor: 2, Patch: 3, PreRelease: strings.Repeat("z9-", 34000) + "0"}}) // 100 KiB
+	semEq := func(v sem.Ver, w sem.Ver) bool { return v == w }
+	for _, limit := range []int{0, 1 << 20} {
+		restore := cxSetLimits(limit, limit, limit, limit, limit)
+		for ci, sc := range sems {
+			name := fmt.Sprintf("sem: %d-byte version under MaxInputLength %d", len(sc.text), limit)
+			repro := fmt.Sprintf("sem.parse Parse %d %s", limit, hx([]byte(sc.text)))
+			parsers := []struct {
+				n string
+				f func(b []byte) (sem.Ver, error)
+				s func(t string) (sem.Ver, error)
+			}{
+				{"Parse", func(b []byte) (sem.Ver, error) { return sem.Parse(b) }, func(t string) (sem.Ver, error) { return sem.Parse(t) }},
+				{"DefaultParser", func(b []byte) (sem.Ver, error) { return sem.DefaultParser(namedBytes(b), 0) }, func(t string) (sem.Ver, error) { return sem.DefaultParser(namedString(t), 0) }},
+				{"Latest", func(b []byte) (sem.Ver, error) { return sem.Latest(b, "0.0.0-0") }, func(t string) (sem.Ver, error) { return sem.Latest("0.0.0-0", t) }},
+				{"UnmarshalText", func(b []byte) (v sem.Ver, err error) {
+					v = sem.New(9, 9, 9, "keep", "keep")
+					err = v.UnmarshalText(b)
+					return
+				}, nil},
+			}
+			if strings.HasPrefix(sc.text, "v") {
+				parsers[0].n = "ParseTag"
+				parsers[0].f = func(b []byte) (sem.Ver, error) { return sem.ParseTag(b) }
+				parsers[0].s = func(t string) (sem.Ver, error) { return sem.ParseTag(t) }
+			}
+			for pi, p := range parsers {
+				if limit != 0 && (pi+ci)%3 != 0 {
+					continue // regexp needs milliseconds per 100 KiB: a third of the combinations under the second limit
+				}
+				buf, full := cxGuarded([]byte(sc.text))
+				v, err := p.f(buf)
+				c.Check("")
+				if err != nil || !semEq(v, sc.want) {
+					c.Fail("C17.sem.large.value", repro, "%s, %s: %v, value differs from the expected one: %v", name, p.n, err, !semEq(v, sc.want))
+					continue
+				}
+				if !cxIntact([]byte(sc.text), full) {
+					c.Fail("C17.sem.input.large", repro, "%s, %s modified its input", name, p.n)
+				}
+				cxScribble(full)
+				if !semEq(v, sc.want) {
+					c.Fail("C17.sem.retain.large", repro, "%s, %s: the parsed value changed when the input buffer was overwritten afterwards: PreRelease now %s, Build %s",
+						name, p.n, cxClip([]byte(v.PreRelease)), cxClip([]byte(v.Build)))
+				}
+				if p.s != nil {
+					vs, es := p.s(sc.text)
+					if es != nil || !semEq(vs, sc.want) {
+						c.Fail("C17.sem.types.large", repro, "%s, %s: the string instantiation gives %v (value equal: %v)", name, p.n, es, semEq(vs, sc.want))
+					}
+				}
+			}
+			// failing calls on a receiver that holds the large value
+			if limit == 0 {
+				var r sem.Ver
+				buf, full := cxGuarded([]byte(sc.text))
+				if err := r.UnmarshalText(buf); err != nil {
+					c.Fail("C17.sem.large.value", repro, "%s, UnmarshalText: %v", name, err)
+					continue
+				}
+				cxScribble(full)
+				bad := []string{sc.text + "\n", sc.text[:len(sc.text)/2] + "..", "", "x"}
+				for bi, b := range bad {
+					err := r.UnmarshalText([]byte(b))
+					c.Check("")
+					if err == nil || !semEq(r, sc.want) {
+						c.Fail("C17.sem.recv.large", repro, "%s: failing call %d (%d bytes) returned %v and the receiver still equals the large value: %v", name, bi, len(b), err, semEq(r, sc.want))
+					}
+				}
+				sem.MaxInputLength = 1024
+				err := r.UnmarshalText([]byte(sc.text))
+				sem.MaxInputLength = 0
+				if !errors.Is(err, sem.ErrInputTooLong) || !semEq(r, sc.want) {
+					c.Fail("C17.sem.recv.large", repro, "%s: the same text under the limit 1024 again: %v, receiver intact: %v", name, err, semEq(r, sc.want))
+				}
+			}
+		}
+		// roman: thousands beyond the default limit, tails in every style
+		for ri, k := range []int{129, 5000, 100000} {
+			for ti, tail := range []string{"CMXCIV", "dccclxxxviii", "", "CdXlIv", "DCCCCLXXXXVIIII"} {
+				if limit != 0 && (ri+ti)%3 != 0 || k == 100000 && ti%2 == 1 {
+					continue
+				}
+				ms := strings.Repeat("M", k)
+				if ti%2 == 1 {
+					ms = strings.Repeat("m", k)
+				}
+				text := ms + tail
+				want := uint64(k)*1000 + ruEvalSymbols(ruUpper(tail))
+				name := fmt.Sprintf("roman: numeral of %d bytes under MaxInputLength %d", len(text), limit)
+				repro := fmt.Sprintf("roman.parse %d 0 %s", limit, hx([]byte(text)))
+				buf, full := cxGuarded([]byte(text))
+				v1, e1 := roman.DefaultParser(buf, 0)
+				v2, e2 := roman.DefaultParser(text, roman.RuleDisableEmptyAsZero)
+				e3 := roman.Valid(namedBytes(buf), 0)
+				r := roman.Number(987654321)
+				e4 := r.UnmarshalText(buf)
+				c.Check("")
+				if e1 != nil || e2 != nil || e3 != nil || e4 != nil || uint64(v1) != want || uint64(v2) != want || uint64(r) != want {
+					c.Fail("C17.roman.large.value", repro, "%s: %d %v / %d %v / %v / %d %v, want %d", name, uint64(v1), e1, uint64(v2), e2, e3, uint64(r), e4, want)
+				}
+				if !cxIntact([]byte(text), full) {
+					c.Fail("C17.roman.input.large", repro, "%s: a call modified its input", name)
+				}
+				cxScribble(full)
+				for bi, b := range []string{text + "Q", text + "M" + tail, "IIIII", strings.Repeat("i", k)} {
+					err := r.UnmarshalText([]byte(b))
+					if b == text+"M"+tail && tail == "" { // still a numeral
+						if err != nil || uint64(r) != want+1000 {
+							c.Fail("C17.roman.large.value", repro, "%s + M: %d %v", name, uint64(r), err)
+						}
+						r = roman.Number(want)
+						continue
+					}
+					if err == nil || uint64(r) != want {
+						c.Fail("C17.roman.recv.large", repro, "%s: failing call %d returned %v, receiver %d, want %d kept", name, bi, err, uint64(r), want)
+					}
+				}
+			}
+		}
+		// size: long digit strings (leading zeros, separators of the three kinds) and kilobytes of blanks
+		for zi, zc := range []struct {
+			text string
+			want uint64
+		}{
+			{strings.Repeat(" ", 3000) + "12 345 678 KiB" + strings.Repeat(" ", 2000), 12345678 << 10},
+			{strings.Repeat("0", 5000) + "1_000_000\u00a0kB", 1000000000},
+			{"1" + strings.Repeat("_", 70000) + "8446744073709551615", mxU64},
+			{strings.Repeat("0_", 40000) + "7 EiB", 7 << 60},
+			{"\"" + strings.Repeat(" ", 50000) + "16 MiB\"", 16 << 20},
+			{"{" + strings.Repeat(" ", 30000) + "\"unit\":\"GB\",\"x\":[" + strings.Repeat("0,", 20000) + "0],\"value\":" + "3}", 3000000000},
+		} {
+			name := fmt.Sprintf("size: case %d, %d bytes under MaxInputLength %d", zi, len(zc.text), limit)
+			rule := size.Rule(0)
+			if zc.text[0] == '"' || zc.text[0] == '{' {
+				rule = size.DefaultRule
+			}
+			repro := fmt.Sprintf("size.parse %d 0 %d %s", limit, int(rule), hx([]byte(zc.text)))
+			omk := size.MaxObjectKeys
+			size.MaxObjectKeys = 0
+			buf, full := cxGuarded([]byte(zc.text))
+			v1, e1 := size.DefaultParser(buf, rule)
+			v2, e2 := size.DefaultParser(namedString(zc.text), rule)
+			r := size.Size(9876543210987)
+			var e3 error
+			if rule == 0 {
+				e3 = r.UnmarshalText(buf)
+			} else {
+				e3 = r.UnmarshalJSON(buf)
+			}
+			c.Check("")
+			if e1 != nil || e2 != nil || e3 != nil || uint64(v1) != zc.want || uint64(v2) != zc.want || uint64(r) != zc.want {
+				c.Fail("C17.size.large.value", repro, "%s: %d %v / %d %v / %d %v, want %d", name, uint64(v1), e1, uint64(v2), e2, uint64(r), e3, zc.want)
+			}
+			if !cxIntact([]byte(zc.text), full) {
+				c.Fail("C17.size.input.large", repro, "%s: a call modified its input", name)
+			}
+			cxScribble(full)
+			for bi, b := range []string{zc.text + "x", zc.text[:len(zc.text)-1] + "!", strings.Repeat("9", 30000), "{" + strings.Repeat(" ", 40000)} {
+				var err error
+				if bi%2 == 0 {
+					err = r.UnmarshalText([]byte(b))
+				} else {
+					err = r.UnmarshalJSON([]byte(b))
+				}
+				if err == nil || uint64(r) != zc.want {
+					c.Fail("C17.size.recv.large", repro, "%s: failing call %d returned %v, receiver %d, want %d kept", name, bi, err, uint64(r), zc.want)
+				}
+			}
+			size.MaxObjectKeys = omk
+		}
+		restore()
+	}
+	c.NT(int64(2 * (len(sems) + 25 + 6)))
 }
 
 // ---------------------------------------------------------------------------------------- C16
@@ -1299,42 +1501,61 @@ func cxRandPrefix(r *Rng) []byte {
 	return b
 }
 
+// cxClip quotes b for a failure message; long values are shown by length, head and tail.
+func cxClip(b []byte) string {
+	if len(b) <= 160 {
+		return strconv.Quote(string(b))
+	}
+	return fmt.Sprintf("%d bytes %q…%q", len(b), b[:60], b[len(b)-40:])
+}
+
 // cxAppendCheck is the direct oracle: for every spare capacity in spares the result is prefix ++
 // rendering-into-nil, and the caller's array still holds the prefix.
 func cxAppendCheck(c *Ctx, fv *cxFV, flag int, prefix []byte, spares []int) {
-	empty, err := fv.call(nil, flag)
 	repro := ""
 	if flag >= 0 && flag < fv.lineFlags {
 		repro = fv.line(flag, prefix)
 	}
+	// a panic inside a formatter is a finding of its own (and must not end the run)
+	rawCall := fv.call
+	call := func(buf []byte, flag int) (out []byte, err error) {
+		defer func() {
+			if r := recover(); r != nil {
+				c.Fail("C16."+fv.typ+".panic", repro, "flag %d, buffer of %d bytes (capacity %d): formatter panicked: %v", flag, len(buf), cap(buf), r)
+				out, err = nil, fmt.Errorf("panic: %v", r)
+			}
+		}()
+		return rawCall(buf, flag)
+	}
+	empty, err := call(nil, flag)
 	if err != nil {
 		c.Fail("C16."+fv.typ+".err", repro, "formatter returned %v", err)
 		return
 	}
 	if w, ok := fv.want(flag); ok && string(empty) != w {
-		c.Fail("C16."+fv.typ+".empty", repro, "flag %d: into nil: %q, independent rendering %q", flag, empty, w)
+		c.Fail("C16."+fv.typ+".empty", repro, "flag %d: into nil: %s, independent rendering %s", flag, cxClip(empty), cxClip([]byte(w)))
 	}
 	pl := len(prefix)
 	for _, spare := range spares {
 		backing := make([]byte, pl, pl+spare)
 		copy(backing, prefix)
 		arr := backing[:pl+spare]
-		out, err := fv.call(backing, flag)
+		out, err := call(backing, flag)
 		c.Check("")
 		if err != nil || len(out) != pl+len(empty) || !bytes.Equal(out[:pl], prefix) || !bytes.Equal(out[pl:], empty) {
-			c.Fail("C16."+fv.typ+".append", repro, "flag %d spare %d prefix %q: got %q (%v), into nil %q", flag, spare, prefix, out, err, empty)
+			c.Fail("C16."+fv.typ+".append", repro, "flag %d spare %d prefix %s: got %s (%v), into nil %s", flag, spare, cxClip(prefix), cxClip(out), err, cxClip(empty))
 		}
 		if !bytes.Equal(arr[:pl], prefix) {
-			c.Fail("C16."+fv.typ+".inplace", repro, "flag %d spare %d: caller's array went from %q to %q", flag, spare, prefix, arr[:pl])
+			c.Fail("C16."+fv.typ+".inplace", repro, "flag %d spare %d: caller's array went from %s to %s", flag, spare, cxClip(prefix), cxClip(arr[:pl]))
 		}
 		if spare >= len(empty) && len(out) > 0 && pl+spare > 0 && &out[0] == &arr[0] && !bytes.Equal(arr[pl:pl+len(empty)], empty) {
-			c.Fail("C16."+fv.typ+".shared", repro, "flag %d spare %d: result shares the array but the array holds %q", flag, spare, arr[:pl+len(empty)])
+			c.Fail("C16."+fv.typ+".shared", repro, "flag %d spare %d: result shares the array but the array holds %s", flag, spare, cxClip(arr[:pl+len(empty)]))
 		}
 	}
 	// a nil and an empty non-nil buffer behave alike
-	out, _ := fv.call([]byte{}, flag)
+	out, _ := call([]byte{}, flag)
 	if !bytes.Equal(out, empty) {
-		c.Fail("C16."+fv.typ+".emptybuf", repro, "flag %d: %q vs %q", flag, out, empty)
+		c.Fail("C16."+fv.typ+".emptybuf", repro, "flag %d: %s vs %s", flag, cxClip(out), cxClip(empty))
 	}
 }
 
@@ -1481,6 +1702,54 @@ func propC16(c *Ctx) {
 		}
 	}
 	c.NT(int64(nbig))
+	// 3c. large renderings TOGETHER WITH a non-empty buffer: a rendering much longer than any spare capacity of the grid
+	// and than the small-buffer sizes of bytes.Buffer / append (a "reserve everything at once" path that forgets the
+	// caller's bytes shows up only there). roman numbers of 70 thousands up to 2^32+1 (a numeral of 4.3 MB; into a buffer
+	// only, no parsing, so it is cheap), sem with kilobytes of identifiers and maximal numbers, the far ends of the
+	// other three types. Prefix lengths 1..5000, spare 0, tight (one below, exactly, one above the rendering) and roomy.
+	nlarge := 0
+	largeFVs := []struct {
+		fv    cxFV
+		flags []int
+		heavy bool // megabytes: fewer combinations
+	}{
+		{cxRomanFV(70001), []int{0, 63, 64, 127}, false}, {cxRomanFV(130999), []int{0, 127}, false}, {cxRomanFV(257000), []int{0, 64, 127}, false},
+		{cxRomanFV(300004), []int{0, 63, 64}, false}, {cxRomanFV(1000000), []int{0, 127}, false}, {cxRomanFV(65536001), []int{0, 64}, false},
+		{cxRomanFV(1 << 20 * 1000), []int{0, 127}, true}, {cxRomanFV(1<<32 - 1), []int{0}, true}, {cxRomanFV(1 << 32), []int{0, 64}, true}, {cxRomanFV(1<<32 + 1), []int{63}, true},
+		{cxSemFV(sem.Ver{Major: mxU64, Minor: mxU64, Patch: mxU64, PreRelease: strings.Repeat("a1.", 100) + "z", Build: strings.Repeat("b-", 150)}), []int{0, 1}, false},
+		{cxSemFV(sem.Ver{Major: 1, Minor: 1 << 40, Patch: 3, PreRelease: strings.Repeat("x", 5000), Build: strings.Repeat("0.", 2500) + "0"}), []int{0, 1}, false},
+		{cxSemFV(sem.Ver{Major: mxU64, PreRelease: strings.Repeat("rc.", 30000) + "1"}), []int{0, 1}, false},
+		{cxSemFV(sem.Ver{Patch: mxU64, Build: strings.Repeat("z", 70000)}), []int{1}, false},
+		{cxSizeFV(mxU64), []int{0, 1, 3}, false}, {cxSizeFV(mxU64 - 1023), []int{1, 3}, false}, {cxSizeFV(1<<63 + 1), []int{0, 3}, false}, {cxSizeFV(999999999999999999), []int{1, 3}, false},
+		{cxDateFV(999999999, 12, 31), []int{0, 1}, false}, {cxDateFV(-999999999, 1, 1), []int{0, 1}, false}, {cxDateFV(2147483647, 6, 15), []int{0, 1}, false}, {cxDateFV(-2147483647, 2, 28), []int{0}, false},
+		{cxUUFV(mxU64, mxU64), []int{0, 1}, false}, {cxUUFV(1<<63, 1), []int{1}, false},
+	}
+	pre5000 := make([]byte, 5000)
+	for i := range pre5000 {
+		pre5000[i] = cxEmitAlpha[c.R.Intn(len(cxEmitAlpha))]
+	}
+	for li := range largeFVs {
+		l := &largeFVs[li]
+		for fi, flag := range l.flags {
+			empty, err := l.fv.call(nil, flag)
+			if err != nil {
+				c.Fail("C16."+l.fv.typ+".err", "", "formatter returned %v", err)
+				continue
+			}
+			n := len(empty)
+			prefixes := [][]byte{[]byte("x"), []byte("ab:"), []byte(cxNamedPrefixes[(li+fi)%(len(cxNamedPrefixes)-1)+1]), longPrefixes[(li+fi)%len(longPrefixes)], pre5000}
+			spares := []int{0, 1, 64, n - 1, n, n + 1, 4096, 2*n + 100}
+			if l.heavy {
+				prefixes = [][]byte{[]byte("ab:"), longPrefixes[(li+fi)%len(longPrefixes)]}
+				spares = []int{0, n - 1, n + 1}
+			}
+			for _, pre := range prefixes {
+				cxAppendCheck(c, &l.fv, flag, pre, spares)
+				nlarge++
+			}
+		}
+	}
+	c.NT(int64(nlarge))
 	// 4. URN = "urn:uuid:" ++ plain
 	nu := 2000
 	if c.Thorough {
@@ -2169,11 +2438,87 @@ func cxNegativeLimits(c *Ctx, g *cxG) {
 					c.Evals++
 					if !errors.Is(err, tooLong) {
 						c.Fail("C18.limit."+typ+".negative", fmt.Sprintf("%s(%q) under MaxInputLength %d", name, in, L), "a %d-byte input is longer than the non-zero limit %d, but: %v", len(in), L, err)
+						continue
+					}
+					// the too-long message does not reproduce the input under a negative limit either: a control input of the
+					// same length gives the same text, and a distinctive input leaves no four-byte run in it
+					control := cxDistinct(c.R, len(in))
+					var cerr error
+					restore = set(L)
+					g.run(name, func() string { return fmt.Sprintf("%s(%q) under MaxInputLength %d", name, control, L) }, func() { cerr = e.call(control) })
+					restore()
+					if cerr == nil || cerr.Error() != err.Error() {
+						c.Fail("C18.limit."+typ+".negative.message", fmt.Sprintf("%s(%q) under MaxInputLength %d", name, in, L), "message depends on the input: %q vs %q for %q", err, cerr, control)
+					} else if w, bad := cxEchoes(err.Error(), in); bad && len(in) >= 4 && !strings.Contains(cerr.Error(), w) {
+						c.Fail("C18.limit."+typ+".negative.echo", fmt.Sprintf("%s(%q) under MaxInputLength %d", name, in, L), "message %q reproduces %q", err, w)
 					}
 				}
 			}
 		}
 		c.NT(3)
+	}
+}
+
+// cxLimitMagnitude: the VALUE of the limit. Callers who want "practically unlimited" set MaxInputLength to a huge number;
+// a parser whose cost or arithmetic depends on the limit itself (a buffer pre-sized by it, a narrowing to int32 or
+// uint16, limit+1 overflowing) misbehaves only there. For each package and each limit of the list every entry point is
+// called with short inputs (valid, malformed, empty): no panic, no allocation beyond a few KiB, never "too long", and
+// exactly the outcome (error presence and text) the same call has with the limit switched off; the valid text of the
+// package is accepted by the plain entry points. The first finding per package ends that package's sweep, so that a
+// parser that allocates by the limit is not asked for gigabytes again and again; the unrepresentable sizes come first
+// (they panic instead of allocating).
+func cxLimitMagnitude(c *Ctx, g *cxG) {
+	limits := []int{math.MaxInt64, math.MaxInt64 - 1, 1 << 62, 1<<32 + 2, 1 << 32, 1<<32 - 1, 1 << 31, 1<<31 - 1, 1<<16 + 1, 1 << 24}
+	for _, typ := range cxTypes {
+		entries, tooLong, set, _ := cxEntries(typ)
+		inputs := []string{cxSeedValid[typ], cxValidText(c.R, typ), "x", "", cxSeedValid[typ] + " ", "\xff\xfe"}
+		if typ == "size" {
+			inputs = append(inputs, "{\"value\":2,\"unit\":\"KiB\"}", "\"7 MB\"", "  1_000 kB ")
+		}
+		if typ == "sem" {
+			inputs = append(inputs, "v1.2.3-rc.1+b.7")
+		}
+	sweep:
+		for _, L := range limits {
+			for ii, in := range inputs {
+				for ei := range entries {
+					e := &entries[ei]
+					name := fmt.Sprintf("%s.%s", typ, e.name)
+					repro := fmt.Sprintf("%s(%q) under MaxInputLength %d", name, in, L)
+					if e.line != nil {
+						repro = e.line(L, in)
+					}
+					var e0, eL error
+					restore := set(0)
+					g.run(name, func() string { return repro }, func() { e0 = e.call(in) })
+					restore()
+					before, fails := g.panics, len(c.Fails)
+					restore = set(L)
+					a0 := cxTotalAlloc()
+					g.run(name, func() string { return repro }, func() { eL = e.call(in) })
+					alloc := cxTotalAlloc() - a0
+					restore()
+					c.Evals++
+					switch {
+					case g.panics != before:
+						// reported by g.run
+					case alloc > 4<<20:
+						c.Fail("C18.alloc."+typ+".hugelimit", repro, "a %d-byte input under the limit %d made the call allocate %d bytes", len(in), L, alloc)
+					case errors.Is(eL, tooLong):
+						c.Fail("C18.limit."+typ+".hugelimit", repro, "a %d-byte input is refused as too long under the limit %d: %v", len(in), L, eL)
+					case (e0 == nil) != (eL == nil) || errText(e0) != errText(eL):
+						c.Fail("C18.limit."+typ+".hugelimit.differs", repro, "limit off: %q, limit %d: %q", errText(e0), L, errText(eL))
+					case ii == 0 && eL != nil && (strings.HasPrefix(e.name, "DefaultParser") && strings.HasSuffix(e.name, " r0") || e.name == "UnmarshalText" || strings.HasPrefix(e.name, "Valid") ||
+						e.name == "Parse[string]" || e.name == "Parse[[]byte]" || e.name == "Default[string]" || e.name == "Default[[]byte]"):
+						c.Fail("C18.limit."+typ+".hugelimit.reject", repro, "the valid text %q is rejected under the limit %d: %v", in, L, eL)
+					}
+					if len(c.Fails) != fails || g.panics != before {
+						break sweep
+					}
+				}
+			}
+			c.NT(1)
+		}
 	}
 }
 
@@ -2429,6 +2774,7 @@ func propC18(c *Ctx) {
 	cxLimitContract(c, g)
 	cxHugeInputs(c, g)
 	cxNegativeLimits(c, g)
+	cxLimitMagnitude(c, g)
 	t2 := time.Now()
 	// 3. hand-picked cases
 	cxSpecific(c, g)
